@@ -127,11 +127,13 @@ static uint64_t ell_of_class(int ellc, Rng& r) {
     case 3: return 10000;
     case 4: return 3 + r.below(9997);  // 3..9999
     case 5: return 3 + r.below(62);    // 3..64
-    default: return 9990 + r.below(10);
+    case 6: return 9990 + r.below(10);
+    // lengths where an implementation is likely to switch strategy or run out of head-room: 65..300 (dense), and 2^j-3 .. 2^j+3
+    default: return r.below(2) ? 65 + r.below(236) : ((uint64_t)1 << (5 + r.below(9))) - 3 + r.below(7);
   }
 }
 static const char* ell_class_name(int ellc) {
-  static const char* n[] = {"ell:0", "ell:1", "ell:2", "ell:10000", "ell:mid", "ell:small", "ell:near-max"};
+  static const char* n[] = {"ell:0", "ell:1", "ell:2", "ell:10000", "ell:mid", "ell:small", "ell:near-max", "ell:65..300 and near powers of two"};
   return n[ellc];
 }
 
@@ -557,7 +559,7 @@ std::vector<Sub> vh_subs() {
   {
     Sub s;
     s.name = "product";
-    s.fields = {{"kern", 0, K_N - 1}, {"ellc", 0, 6}, {"xfam", 0, WF_N - 1}, {"yfam", 0, 5}, {"shape", 0, 2}, {"seed", 0, INT64_MAX - 1}};
+    s.fields = {{"kern", 0, K_N - 1}, {"ellc", 0, 7}, {"xfam", 0, WF_N - 1}, {"yfam", 0, 5}, {"shape", 0, 2}, {"seed", 0, INT64_MAX - 1}};
     s.run = [](const Vals& v, Ctx& c) { run_product(c, (int)v[0], (int)v[1], (int)v[2], (int)v[3], (int)v[4], (uint64_t)v[5]); };
     subs.push_back(s);
   }
